@@ -32,7 +32,7 @@ ASSUMPTIONS = [
     "Path(seg1, seg2, ...), Path(list) and Path(tuple) adopt their arguments by design (constructor from parts); this is documented and not reported.",
     "Image.image (a PIL image) is shared by copies by documented design.",
 ]
-FLOORS = {"R18.1": 40, "R18.2": 20, "R18.3": 3, "R18.4": 1}
+FLOORS = {"R18.1": 40, "R18.2": 20, "R18.3": 4, "R18.4": 1}
 
 MUTABLE_CTORS = {"Point", "Matrix", "Color", "Viewbox", "Path", "list", "dict", "set", "Group", "Subpath"}
 COPYING_CTORS = {"Point", "Matrix", "Color", "Viewbox", "Length", "dict", "Angle", "str", "float", "int", "bool"}
@@ -357,6 +357,21 @@ def adoption(ctx):
                 and not any(isinstance(x, ast.AugAssign) and isinstance(x.value, ast.Name) and x.value.id == oa for x in add_path.stmts))
     ctx.ob("R18.3", "Path.__add__[PathSegment]", (not iadd_adopts) or add_copies, "+= appends the operand object: %s; + copies it first: %s" % (iadd_adopts, add_copies), pa.lineno,
            "path + segment stores the operand segment in the new path and re-links its start point (Path('M9,9') + line changes line.start)")
+    # the same pair for the subpath view: Subpath.__iadd__ inserts the operand object into the backing path
+    spa = ctx.fn("Subpath.__add__", "R18.3")
+    sia = ctx.fn("Subpath.__iadd__", "R18.3")
+    soi = sia.args.args[1].arg
+    s_seg = follow(ctx, "R18.3", sia, {soi: "Line"})
+    s_adopts = bool(calls_in(s_seg.stmts, lambda c: isinstance(c.func, ast.Attribute) and c.func.attr in ("append", "insert", "extend")
+                             and any(isinstance(a, ast.Name) and a.id == soi for a in c.args)))
+    soa = spa.args.args[1].arg
+    s_add = follow(ctx, "R18.3", spa, {soa: "Line"})
+    s_copies = any(isinstance(x, ast.Assign) and isinstance(x.targets[0], ast.Name) and x.targets[0].id == soa and isinstance(x.value, ast.Call)
+                   and (call_name(x.value) == "copy" or (isinstance(x.value.func, ast.Attribute) and x.value.func.attr == "__copy__")) for x in s_add.stmts) \
+        or bool(calls_in(s_add.stmts, lambda c: call_name(c) == "copy" and c.args and isinstance(c.args[0], ast.Name) and c.args[0].id == soa)
+                and not any(isinstance(x, ast.AugAssign) and isinstance(x.value, ast.Name) and x.value.id == soa for x in s_add.stmts))
+    ctx.ob("R18.3", "Subpath.__add__[PathSegment]", (not s_adopts) or s_copies, "+= inserts the operand object: %s; + copies it first: %s" % (s_adopts, s_copies), spa.lineno,
+           "subpath + segment stores the operand segment in the new path and re-links its start point (seg.start becomes the subpath's end)")
     ra = ctx.fn("Path.__radd__", "R18.3")
     orr = ra.args.args[1].arg
     adopt = [c for c in ast.walk(ra) if isinstance(c, ast.Call) and isinstance(c.func, ast.Attribute) and c.func.attr in ("insert", "append", "extend") and any(isinstance(a, ast.Name) and a.id == orr for a in c.args)]
